@@ -104,11 +104,101 @@ func c06(c *Ctx) {
 	// the per-interface cap the pool enforces is the running instance type's (shared rules)
 	c19R3(c)
 	c19R6(c)
+	// the number of interface slots the daemon builds never exceeds the instance type's limit: the
+	// configured maximum can only lower it (shared rule C19.R2)
+	c19R2(c)
 	// shared: no factory error is discarded — a refused delete does not free the slot (C07.R4)
 	c07R4(c)
 	ruleShadow(c, "C06.R7", "the whole module")
 	c06R8(c)
 	ruleAddrFromSlice(c, "C06.R9", "the whole module (the primary address of an interface is recognised by comparing addresses)")
+	c06R10(c)
+}
+
+// R10: the primary address of an interface created in this daemon's lifetime is known as primary.
+// IP.Dispose refuses the primary address by its flag alone (C01.R4); the flag is given when the
+// addresses the new interface came with enter the pool.
+func c06R10(c *Ctx) {
+	p := c.P
+	c.Rule("C06.R10", "factoryAllocWorker: the IPv4 addresses returned by Factory.CreateNetworkInterface enter the pool only through NewValidIP(v, <v compared with the interface's PrimaryIP>) — never through a constructor that cannot mark the primary address")
+	fn := p.Func(eniPkg, "Local.factoryAllocWorker")
+	createM := p.Method("pkg/factory", "Factory", "CreateNetworkInterface")
+	newValid := p.Func(eniPkg, "NewValidIP")
+	if fn == nil || createM == nil || newValid == nil {
+		c.Unres("C06.R10", "Local.factoryAllocWorker / Factory.CreateNetworkInterface / NewValidIP", "not found")
+		return
+	}
+	info := fn.Info()
+	var v4 types.Object
+	for _, cs := range p.CallsTo([]*FuncInfo{fn}, createM) {
+		if _, lhs := assignedFromCall(fn, cs.Call); len(lhs) == 4 && lhs[1] != nil {
+			v4 = lhs[1]
+		}
+	}
+	if v4 == nil {
+		c.Undec("C06.R10", "the IPv4 list of the created interface", p.Pos(fn.Decl), fn.Key(), "eni, ipv4Set, ipv6Set, err := factory.CreateNetworkInterface(…)", "result not bound")
+		return
+	}
+	ranges := 0
+	ast.Inspect(fn.Decl.Body, func(nd ast.Node) bool {
+		switch t := nd.(type) {
+		case *ast.RangeStmt:
+			if identObj(info, t.X) != v4 {
+				return true
+			}
+			ranges++
+			val := identObj(info, t.Value)
+			okFlag := false
+			ast.Inspect(t.Body, func(k ast.Node) bool {
+				call, ok := k.(*ast.CallExpr)
+				if !ok || Callee(info, call) != newValid.Obj || len(call.Args) != 2 {
+					return true
+				}
+				if val == nil || identObj(info, call.Args[0]) != val {
+					return true
+				}
+				if be, ok := ast.Unparen(derefExpr(fn, call.Args[1])).(*ast.BinaryExpr); ok && be.Op == token.EQL {
+					if strings.Contains(derefString(fn, be.X)+derefString(fn, be.Y), ".PrimaryIP") || strings.Contains(sliceTextOf(fn, be.X)+sliceTextOf(fn, be.Y), ".PrimaryIP") {
+						okFlag = true
+					}
+				}
+				return true
+			})
+			c.Check(okFlag, "C06.R10", "the created interface's addresses are entered with their primary flag", p.Pos(t), fn.Key(), "for _, v := range ipv4Set { pool.Add(NewValidIP(v, v == <eni.PrimaryIP>)) }", "no NewValidIP(v, v == primary) in the loop over the returned addresses")
+			return true
+		case *ast.CallExpr:
+			if _, isLen := isBuiltinCall(info, t, "len"); isLen {
+				return false
+			}
+			for _, a := range t.Args {
+				if identObj(info, a) == v4 {
+					c.Bad("C06.R10", "the created interface's IPv4 addresses handed to "+calleeName(info, t), p.Pos(t), fn.Key(), "entered one by one with NewValidIP(v, v == primary)", "the callee cannot tell which of them is the primary address: it would be unassigned like any other")
+				}
+			}
+		}
+		return true
+	})
+	c.Floor("C06.R10", "loops over the created interface's IPv4 addresses", 1, ranges)
+}
+
+// sliceTextOf: the defining text of a local mentioned in x (one hop), for provenance by text.
+func sliceTextOf(fn *FuncInfo, x ast.Expr) string {
+	out := ""
+	ast.Inspect(x, func(n ast.Node) bool {
+		if id, ok := n.(*ast.Ident); ok {
+			if v, ok := fn.Info().ObjectOf(id).(*types.Var); ok && !v.IsField() {
+				for _, d := range varDefs(fn, v) {
+					if d.rhs != nil {
+						out += exprString(d.rhs) + ";"
+					} else if as, ok := d.node.(*ast.AssignStmt); ok && len(as.Rhs) == 1 {
+						out += exprString(as.Rhs[0]) + ";" // x, err := f(…)
+					}
+				}
+			}
+		}
+		return true
+	})
+	return out
 }
 
 // R1: cap check counts in-flight requests, in normal form, before every enqueue.
